@@ -131,6 +131,13 @@ class FdTable(EngineBase):
                 k.end_op()
         initial = {int(fd): dict(d) for fd, d in (
             k.procs[T].fds if T in k.procs else {}).items()}
+        if plan.get("deny_fdinfo"):
+            # the offset/flags record of one still-open descriptor cannot
+            # be read (EACCES after the target changed credentials, EMFILE,
+            # EIO): the call may fail with that error, it must not drop
+            # the descriptor silently
+            fd_, eno_ = plan["deny_fdinfo"]
+            k.deny = {"/proc/%d/fdinfo/%d" % (T, fd_): eno_}
         acc0 = len(k.acclog)
         ver0 = k.version
         k.begin_op(1)
@@ -141,6 +148,7 @@ class FdTable(EngineBase):
                 raise
             out = ("exc", e)
         k.end_op()
+        k.deny = {}
         if cm is not None:
             try:
                 cm.__exit__(None, None, None)
@@ -164,7 +172,12 @@ class FdTable(EngineBase):
             tags.append("table_changed")
         if not alive:
             tags.append("died")
-        if out[0] == "exc":
+        if out[0] == "exc" and plan.get("deny_fdinfo") and (
+                exc_class(psutil, out[1]) == "AD" or (
+                    isinstance(out[1], OSError) and
+                    out[1].errno == plan["deny_fdinfo"][1])):
+            res["outcome"] = "refused"
+        elif out[0] == "exc":
             cls = exc_class(psutil, out[1])
             res["outcome"] = cls
             if alive:
@@ -323,6 +336,16 @@ class FdTable(EngineBase):
                     r = W.execute_forked(bp)
                     u["evals"] += 1
                     self._absorb(u, bp, r, ("reborn", subject))
+            if subject == "open_files":
+                regs_ = [fd for fd, d in world["fds"] if d["kind"] == "file"
+                         and d["target"] in world["files"] and
+                         not d["target"].endswith(" (deleted)")]
+                for j in range(2 if regs_ else 0):
+                    dp = dict(base, deny_fdinfo=[rng.choice(regs_),
+                                                 rng.choice([13, 24, 5])])
+                    r = W.execute_forked(dp)
+                    u["evals"] += 1
+                    self._absorb(u, dp, r, ("deny_fdinfo", subject))
             if subject != "open_files" or n == 0:
                 continue
             fdnums = [fd for fd, _ in world["fds"]]
